@@ -14,7 +14,15 @@ RULE = ("histories on real OIDC and OAuth2 providers (authorization, token, user
         "authorization (identical request / other registered redirect_uri / narrower, wider, reordered scope / other client or "
         "user / new or old state+nonce / cookie of a revoked, removed, expired session), after which every code is presented with "
         "each registered redirect_uri; the oracle holds every exchange against the redirect_uri the harness SENT in the "
-        "authorization request that produced that very code. "
+        "authorization request that produced that very code; "
+        "(d) providers configured with the documented session parameter remove_inactive_token (Grant.revoke_token then takes "
+        "revoked tokens off grant.issued_token; they still decrypt and can be presented): the interleaving schedules and the "
+        "expiry / replay cases of (a) once more, a lineage family (first use, 0-2 refresh generations with and without refresh "
+        "rotation, then nothing / a revocation of the code, of an access, refresh or ID token through the revocation endpoint or "
+        "the API, then the code again, then every descendant at userinfo, introspection, the refresh grant and the revocation "
+        "endpoint) under both values of the option, and random histories with the option on; model correspondence with the "
+        "flag c_remove_inactive, the exchange-count oracle, and the replay oracle over ALL descendants of the first use "
+        "(lineage kept by the harness from the responses). "
         "A history is non-trivial when at least one code exchange succeeds; distinct by content.")
 ASSUMPTIONS = ["a provider whose usage rules are configured per client only sees no cookie-carrying authorization requests in the "
                "model-compared histories (the grant it makes for such a request gets no usage rules at all; the model's lifetimes are per provider)",
@@ -32,8 +40,40 @@ class Oracle:
         self.success = {}         # code id -> list of proc records
         self.code_exp = {}
         self.hist = []
+        self.parent = {}          # token id -> the token it was minted from, as the RESPONSES say (code -> tokens, refresh token -> tokens)
+        self.revoked_before = set()
+
+    def before(self, rs, op):
+        if not self.hist:
+            self.hist.append([["provider", {"flavour": "oidc" if rs.oidc else "oauth2", "usage_rules": rs.rules,
+                                            "session_params.remove_inactive_token": bool(getattr(rs, "remove_inactive", False)),
+                                            "revoke_refresh_on_issue": bool(rs.ep["token"].revoke_refresh_on_issue)}], ["-"]])
+        if op[0] == "tparse":
+            # what was revoked before this presentation (only used to name the verdict, see probe_dead)
+            self.revoked_before = {i for i, t in enumerate(rs.tokobj) if t.revoked}
+
+    def descendants(self, cid):
+        """everything minted from the first use of code cid, transitively (refreshes of refreshes ...)"""
+        out, todo = [], [cid]
+        while todo:
+            x = todo.pop()
+            for t, p in sorted(self.parent.items()):
+                if p == x and t not in out:
+                    out.append(t)
+                    todo.append(t)
+        return sorted(out)
+
+    def chain(self, tid):
+        """the ancestors of tid, nearest first, ending with the code"""
+        out = []
+        while tid in self.parent:
+            tid = self.parent[tid]
+            out.append(tid)
+        return out
 
     def __call__(self, rs, op, out, rec):
+        if not self.hist:
+            self.before(rs, ("-",))
         self.hist.append([list(op), out])
         k = op[0]
         if k in ("tparse", "rparse"):
@@ -45,13 +85,19 @@ class Oracle:
                 t = rs.tokobj[op[2][1]]
                 if t.token_class == "authorization_code" and out[0] == "err" and self.success.get(op[2][1]):
                     # second presentation of an already exchanged code at the OIDC endpoint:
-                    # the tokens minted from the first exchange must be dead everywhere
-                    first = self.success[op[2][1]][0]
-                    for key, tid in first.items():
+                    # the tokens minted from the first exchange - and whatever was minted from those - must be dead everywhere
+                    self.ctx.count("replay-of-an-exchanged-code:remove_inactive_token-" + ("on" if getattr(rs, "remove_inactive", False) else "off")
+                                   + ":answer-" + str(out[1]))
+                    for tid in self.descendants(op[2][1]):
+                        self.ctx.count("replay-probe:generation-%d" % len(self.chain(tid)))
                         self.probe_dead(rs, tid, "after OIDC replay of code %d" % op[2][1])
         if k == "proc" and out[0] == "ok" and op[1] < len(self.parsed):
             kind, client, ref, red, t_parse, sent_uri = self.parsed[op[1]]
             if kind != "tparse":
+                if ref[0] == "tok":      # a refresh: what the response carries was minted from the presented refresh token
+                    for tid in out[1].values():
+                        if tid >= 0:
+                            self.parent.setdefault(tid, ref[1])
                 return
             if ref[0] != "tok":
                 self.ctx.violation("tokens-for-garbage", "tokens issued for a string that is no code: %r" % (ref,), self.hist)
@@ -59,6 +105,9 @@ class Oracle:
             cid = ref[1]
             code = rs.tokobj[cid]
             owner = rs.grants[rs.tok_grant[cid]][3]
+            for tid in out[1].values():
+                if tid >= 0:
+                    self.parent.setdefault(tid, cid)
             self.success.setdefault(cid, []).append(dict(out[1]))
             if len(self.success[cid]) > 1:
                 self.ctx.violation("code-reuse", "code %d exchanged for tokens %d times" % (cid, len(self.success[cid])), self.hist)
@@ -78,18 +127,27 @@ class Oracle:
             if code.expires_at and rs.clock.now > code.expires_at:
                 self.ctx.violation("expired-code", "code exchanged %d s after its expiry" % (rs.clock.now - code.expires_at), self.hist)
 
+    def verdict_key(self, rs, tid):
+        """The recorded finding (known_findings.txt) is narrow: remove_inactive_token ON and, before this presentation, the
+        code itself or a token on the way from the code down to tid had been revoked (the library's walk drops such tokens
+        from the grant and no longer passes through them).  Everything else - the option off; the option on with nothing
+        revoked on the way - keeps the plain key."""
+        if getattr(rs, "remove_inactive", False) and any(a in self.revoked_before for a in self.chain(tid)):
+            return "replay-not-revoked:remove-inactive-token"
+        return "replay-not-revoked"
+
     def probe_dead(self, rs, tid, why):
         """out-of-band probes on the real endpoints (read-only)"""
         t = rs.tokobj[tid]
         if t.token_class == "access_token" and rs.oidc:
             r = rs.run(("userinfo", ("tok", tid)))
             if r[0] == "ok":
-                self.ctx.violation("replay-not-revoked", "access token %d still honoured by userinfo %s" % (tid, why), self.hist)
+                self.ctx.violation(self.verdict_key(rs, tid), "access token %d still honoured by userinfo %s" % (tid, why), self.hist)
         if t.token_class in ("access_token", "refresh_token"):
             owner = rs.grants[rs.tok_grant[tid]][3]
             r = rs.run(("introspect", owner, ("tok", tid)))
             if r[0] == "active":
-                self.ctx.violation("replay-not-revoked", "%s %d still active at introspection %s" % (t.token_class, tid, why), self.hist)
+                self.ctx.violation(self.verdict_key(rs, tid), "%s %d still active at introspection %s" % (t.token_class, tid, why), self.hist)
 
 
 def interleavings(n):
@@ -145,14 +203,127 @@ def structured_cases(quick, rng):
     return cases
 
 
+RULES5 = ["explicit", "implied", "per-client", "handler", "partial"]
+
+
+def with_option(cases, on=True):
+    """the same fixed histories on providers configured with session_params.remove_inactive_token"""
+    out = []
+    for j, entry in enumerate(cases):
+        label, oidc, roi, ops = entry[:4]
+        rules = entry[4] if len(entry) > 4 else RULES5[j % 5]
+        kw = dict(entry[5]) if len(entry) > 5 else {}
+        kw["remove_inactive"] = on
+        out.append((label + ("+remove_inactive" if on else ""), oidc, roi, ops, rules, kw))
+    return out
+
+
+def lineage_cases(quick):
+    """SECOND PRESENTATION OF A CODE OVER A LINEAGE.  First use of code 0 (access 1, refresh 2, ID Token 3), then d refresh
+    generations (each refresh = the newest refresh token; with refresh rotation the used refresh token is revoked), then ONE
+    event - nothing, or a revocation of the code / an access token / a refresh token in the middle of the chain / the ID
+    Token, through the revocation endpoint or SessionManager.revoke_token (plain and recursive) - then the code again, then
+    every token of the lineage at userinfo / introspection / the refresh grant / the revocation endpoint.  Both values of
+    remove_inactive_token, OIDC (the flavour that invalidates on replay) and, for the look-ups, OAuth2."""
+    scope = ["openid", "email", "offline_access"]
+    cases = []
+    k = 0
+    for ri in (True, False):
+        for roi in (False, True):
+            for d in (0, 1, 2):
+                # token ids: generation g (1-based) of a refresh mints access 3g+1, refresh 3g+2, ID Token 3g+3
+                newest_refresh = 2 + 3 * d
+                mid_refresh = 2 + 3 * max(0, d - 1)
+                events = [("none", []),
+                          ("code-revoked-at-endpoint", [("revoke_ep", "client_1", ("tok", 0), None)]),
+                          ("access-revoked-at-endpoint", [("revoke_ep", "client_1", ("tok", 1), "access_token")]),
+                          ("middle-refresh-revoked-at-endpoint", [("revoke_ep", "client_1", ("tok", mid_refresh), None)]),
+                          ("middle-refresh-revoked-by-api", [("api_revoke", ("tok", mid_refresh), False)]),
+                          ("idtoken-revoked-by-api-recursive", [("api_revoke", ("tok", 3), True)]),
+                          ("code-revoked-then-api-recursive-elsewhere", [("revoke_ep", "client_1", ("tok", 0), None), ("api_revoke", ("tok", 3), True)]),
+                          ("code-revoked-by-api", [("api_revoke", ("tok", 0), False), ("api_revoke", ("tok", 1), True)]),
+                          ("access-revoked-by-api-recursive", [("api_revoke", ("tok", 1), True)])]
+                if quick and not ri:
+                    events = [e for e in events if e[0] in ("none", "code-revoked-then-api-recursive-elsewhere", "middle-refresh-revoked-at-endpoint")]
+                    if d == 1:
+                        continue
+                for ename, ev in events:
+                    ops = [("authz", "diana", "client_1", scope), ("tparse", "client_1", ("tok", 0), "same"), ("proc", 0, None)]
+                    n = 1
+                    for g in range(d):
+                        ops += [("rparse", "client_1", ("tok", 2 + 3 * g), None), ("proc", n, None)]
+                        n += 1
+                    ops += ev
+                    ops.append(("tparse", "client_1", ("tok", 0), "same"))      # the second presentation (the oracle probes every descendant)
+                    ops.append(("proc", n, None))
+                    n += 1
+                    last = 3 + 3 * d
+                    for i in range(1, last + 1):
+                        ops.append(("introspect", "client_1", ("tok", i)))
+                        if i % 3 == 1:
+                            ops.append(("userinfo", ("tok", i)))
+                    ops += [("rparse", "client_1", ("tok", newest_refresh), None), ("proc", n, None),
+                            ("revoke_ep", "client_1", ("tok", 1), None), ("tparse", "client_1", ("tok", 0), "same")]
+                    cases.append(("lineage-%s-rot%d-d%d-%s" % ("ri" if ri else "default", roi, d, ename), True, roi, ops,
+                                  ["explicit", "implied", "partial"][k % 3], {"remove_inactive": ri}))      # (rules under which a refresh mints all three classes)
+                    k += 1
+    # the refresh token leaves the grant BETWEEN parse and process (both flavours): a recursive API revocation of its code
+    for oidc in (True, False):
+        for ri in (True, False):
+            ops = [("authz", "babs", "client_2", scope), ("tparse", "client_2", ("tok", 0), "same"), ("proc", 0, None),
+                   ("rparse", "client_2", ("tok", 2), ["openid"]), ("tparse", "client_2", ("tok", 0), "same"),
+                   ("api_revoke", ("tok", 0), True), ("proc", 1, None), ("proc", 2, None), ("proc", 1, True),
+                   ("introspect", "client_2", ("tok", 1)), ("introspect", "client_2", ("tok", 2)), ("revoke_ep", "client_2", ("tok", 2), None),
+                   ("rparse", "client_2", ("tok", 2), None), ("api_revoke", ("tok", 2), False), ("api_revoke", ("tok", 1), True),
+                   ("tparse", "client_2", ("tok", 0), "same"), ("introspect", "client_1", ("tok", 1))]
+            cases.append(("gone-between-parse-and-process-%s-%s" % ("oidc" if oidc else "oauth2", "ri" if ri else "default"), oidc, False, ops,
+                          "explicit", {"remove_inactive": ri}))
+    return cases
+
+
+def finding_witnesses():
+    """Deterministic witnesses of the recorded finding replay-not-revoked:remove-inactive-token (every run): with the option
+    on, (A) a code that was revoked and then dropped from its grant by another Grant.revoke_token call is answered "Wrong
+    token type" without any cascade; (B) the same through endpoints only (two codes in one grant); (C) refresh rotation:
+    the cascade of the replayed code stops at the rotated (already revoked) refresh token."""
+    sc = ["openid", "email", "offline_access"]
+    cb = sess.registered_redirects("client_1")[0]
+    a = [("authz", "diana", "client_1", sc), ("tparse", "client_1", ("tok", 0), "same"), ("proc", 0, None),
+         ("revoke_ep", "client_1", ("tok", 0), None), ("api_revoke", ("tok", 3), True),
+         ("tparse", "client_1", ("tok", 0), "same"), ("userinfo", ("tok", 1)), ("introspect", "client_1", ("tok", 2)),
+         ("rparse", "client_1", ("tok", 2), None), ("proc", 2, None)]
+    b = [("authzc", 0, "diana", "client_1", sc, cb, True), ("authzc", 0, "diana", "client_1", sc, cb, False),
+         ("tparse", "client_1", ("tok", 0), "same"), ("proc", 0, None), ("revoke_ep", "client_1", ("tok", 0), None),
+         ("tparse", "client_1", ("tok", 1), "same"), ("proc", 1, None), ("tparse", "client_1", ("tok", 1), "same"),
+         ("tparse", "client_1", ("tok", 0), "same"), ("userinfo", ("tok", 2)), ("introspect", "client_1", ("tok", 3))]
+    c = [("authz", "babs", "client_1", sc + ["profile"]), ("tparse", "client_1", ("tok", 0), "same"), ("proc", 0, None),
+         ("rparse", "client_1", ("tok", 2), None), ("proc", 1, None), ("rparse", "client_1", ("tok", 5), None), ("proc", 2, None),
+         ("rparse", "client_1", ("tok", 7), ["openid"]), ("proc", 3, None),
+         ("tparse", "client_1", ("tok", 0), "same"), ("userinfo", ("tok", 6)), ("userinfo", ("tok", 8)), ("userinfo", ("tok", 4))]
+    return [("finding-witness-A-code-revoked-and-dropped", True, False, a, "explicit", {"remove_inactive": True}),
+            ("finding-witness-B-endpoints-only", True, False, b, "explicit", {"remove_inactive": True}),
+            ("finding-witness-C-refresh-rotation", True, True, c, "handler", {"remove_inactive": True})]
+
+
 def run(ctx):
     def factory():
         return [Oracle(ctx)]
     n = 40 if ctx.quick else 1500
     # the browser-session histories keep the scope fixed except for a few (C05 varies it); shapes: every third random history
     # opens with a pending code and cookie-carrying authorization requests
-    common.run_histories(ctx, n, (15, 60), factory, structured=structured_cases(ctx.quick, ctx.rng) + common.cookie_structured(scope_variants=False),
-                         cookie=True, focus_of=lambda i: "cookie" if i % 3 == 1 else "mixed")
+    # remove_inactive_token ON: the schedules / expiry / replay cases once more (the generator draws from its own stream, so
+    # the default-configuration part of a run is what it was), the lineage family, the finding's witnesses, and a further
+    # batch of random histories (the last n_ri of the run)
+    import random
+    base = structured_cases(ctx.quick, ctx.rng)
+    again = structured_cases(ctx.quick, random.Random(ctx.seed * 7919 + 17))
+    if ctx.quick:      # every 2-redemption schedule, a third of the sampled 3-redemption ones, every expiry / replay case
+        again = [c for i, c in enumerate(again) if "-n3-" not in c[0] or i % 3 == 0]
+    n_ri = 30 if ctx.quick else 1000
+    common.run_histories(ctx, n + n_ri, (15, 60), factory,
+                         structured=base + common.cookie_structured(scope_variants=False) + with_option(again) + lineage_cases(ctx.quick) + finding_witnesses(),
+                         cookie=True, focus_of=lambda i: "cookie" if i % 3 == 1 else "mixed",
+                         remove_inactive_of=lambda i: i >= n)
 
 
 def replay(ctx, rp):
